@@ -319,6 +319,7 @@ async fn run_behaviour(rig: &Rig, b: &Value, idx: u64, f: u64) -> Outcome {
     // final observation
     let keys: Vec<u64> = b["expect"].as_array().map(|a| (1..=a.len() as u64).collect()).unwrap_or_default();
     let mut reads = serde_json::Map::new();
+    let mut final_sets: BTreeMap<u64, Set2> = BTreeMap::new();
     for (id, n) in &rig.nodes {
         let actor = n.grp().get_or_create_keyspace(&ks).await;
         let set = decode_set(&actor.send(Serialize).await.expect("serialize"));
@@ -355,6 +356,20 @@ async fn run_behaviour(rig: &Rig, b: &Value, idx: u64, f: u64) -> Outcome {
             }
         }
         reads.insert(id.to_string(), Value::Array(row));
+        final_sets.insert(*id, set);
+    }
+    // C05 at cluster level: every pair has exchanged, so nobody has anything left to fetch from anybody
+    for (a, sa) in &final_sets {
+        for (b, sb) in &final_sets {
+            if a == b {
+                continue;
+            }
+            let (m, r) = sa.diff(sb);
+            if !m.is_empty() || !r.is_empty() {
+                out.why.push(("C05".into(), format!("after every pair exchanged, node {a} still computes a difference against node {b}: modified {:?}, removed {:?}",
+                    m.iter().map(|e| (e.0, tm.back(&e.1))).collect::<Vec<_>>(), r.iter().map(|e| (e.0, tm.back(&e.1))).collect::<Vec<_>>())));
+            }
+        }
     }
     out.reads = Value::Object(reads);
     out
